@@ -7,7 +7,7 @@
  * logged syscalls of ALL threads in the order they are entered (the driver runs one
  * thread at a time, so that order is deterministic).
  *
- * usage: killat <logfile> <-|kill:N|err:N:ERRNO> <program> [args...]
+ * usage: killat <logfile> <-|kill:N|err:N:ERRNO[,err:M:ERRNO|,kill:M ...]> <program> [args...]
  * exit status: the program's (128+signal if it died by a signal; 137 after kill:N).
  *
  * (Replaces `strace -e inject=...:when=N`, whose occurrence counters are per thread:
@@ -69,8 +69,11 @@ static struct tstate {
 } T[MAXT];
 static int nT;
 static FILE *lg;
-static int runtime, counter, target = -1, mode; /* mode: 0 none, 1 kill, 2 err */
-static int inj_errno;
+static int runtime, counter;
+/* up to MAXACT actions, comma separated on the command line: kill:N or err:N:ERRNO (mode: 1 kill, 2 err) */
+#define MAXACT 4
+static struct { int target, mode, err; } act[MAXACT];
+static int nact;
 static pid_t leader;
 
 static struct tstate *
@@ -213,19 +216,25 @@ main(int argc, char *argv[])
 	lg = fopen(argv[1], "w");
 	if (!lg)
 		return 2;
-	if (strncmp(argv[2], "kill:", 5) == 0) {
-		mode = 1;
-		target = atoi(argv[2] + 5);
-	} else if (strncmp(argv[2], "err:", 4) == 0) {
-		mode = 2;
-		char name[32] = "";
-		sscanf(argv[2] + 4, "%d:%31s", &target, name);
-		for (int i = 0; i < NERR; i++)
-			if (strcmp(ERR[i].n, name) == 0)
-				inj_errno = ERR[i].e;
-		if (!inj_errno) {
-			fprintf(stderr, "killat: unknown errno %s\n", name);
-			return 2;
+	char spec[256];
+	snprintf(spec, sizeof(spec), "%s", argv[2]);
+	for (char *tok = strtok(spec, ","); tok && nact < MAXACT; tok = strtok(NULL, ",")) {
+		if (strncmp(tok, "kill:", 5) == 0) {
+			act[nact].mode = 1;
+			act[nact].target = atoi(tok + 5);
+			nact++;
+		} else if (strncmp(tok, "err:", 4) == 0) {
+			char name[32] = "";
+			act[nact].mode = 2;
+			sscanf(tok + 4, "%d:%31[A-Z0-9]", &act[nact].target, name);
+			for (int i = 0; i < NERR; i++)
+				if (strcmp(ERR[i].n, name) == 0)
+					act[nact].err = ERR[i].e;
+			if (!act[nact].err) {
+				fprintf(stderr, "killat: unknown errno %s\n", name);
+				return 2;
+			}
+			nact++;
 		}
 	}
 	leader = fork();
@@ -284,7 +293,13 @@ main(int argc, char *argv[])
 					fmt_args(t, &si);
 					if (runtime) {
 						counter++;
-						if (counter == target && mode == 1) {
+						int mode = 0, inj_errno = 0;
+						for (int a = 0; a < nact; a++)
+							if (act[a].target == counter) {
+								mode = act[a].mode;
+								inj_errno = act[a].err;
+							}
+						if (mode == 1) {
 							/* the call does not execute: the whole process dies here */
 							fprintf(lg, "%d %s(%s) = ?\n", tid, SC[k].name, t->args);
 							fflush(lg);
@@ -292,7 +307,7 @@ main(int argc, char *argv[])
 							ptrace(PTRACE_CONT, tid, 0, 0);
 							continue;
 						}
-						if (counter == target && mode == 2) {
+						if (mode == 2) {
 							struct user_regs_struct r;
 							ptrace(PTRACE_GETREGS, tid, 0, &r);
 							r.orig_rax = (unsigned long long) -1;
